@@ -24,7 +24,7 @@ fn put32(v: &mut [u8], at: usize, x: u32) {
     v[at..at + 4].copy_from_slice(&x.to_be_bytes());
 }
 
-fn run(input: &str) -> String {
+pub fn run(input: &str) -> String {
     let parts: Vec<&str> = input.split('|').collect();
     let file = unhex(parts[1]);
     let index: usize = parts[2].parse().unwrap();
@@ -328,7 +328,7 @@ fn oracle(file: &[u8]) -> String {
     }
 }
 
-fn gen(rng: &mut Rng) -> String {
+pub fn gen(rng: &mut Rng) -> String {
     let mut b = match rng.below(10) {
         0..=3 => build_sfnt(rng),
         4..=6 => build_ttc(rng),
